@@ -250,6 +250,67 @@ theorem bucket_pairwise (start step : Int) (rows : List Row) : (bucket start ste
 theorem RowLt.le {a b : Row} (h : RowLt a b) : RowLe a b := by
   unfold RowLt at h; unfold RowLe; omega
 
+/-! ## the per-step aggregation that keeps the sample's own time (`bucketLast`) -/
+
+/-- **soundness**: every row of the aggregation is a row of the raw scan, the one with the greatest timestamp of its
+    (fingerprint, bucket) -/
+theorem bucketLast_sound (start step : Int) (rows : List Row) (o : Row) (ho : o ∈ bucketLast start step rows) :
+    o ∈ rows ∧ ∀ x ∈ rows, x.fp = o.fp → bucketEnd start step x.ts = bucketEnd start step o.ts → x.ts ≤ o.ts := by
+  simp only [bucketLast, List.mem_filterMap] at ho
+  obtain ⟨k, _, hr⟩ := ho
+  obtain ⟨hmem, hmax⟩ := argMax_some hr
+  obtain ⟨hrows, hk⟩ := (mem_group start step rows k o).mp hmem
+  refine ⟨hrows, ?_⟩
+  intro x hx hfp hb
+  apply hmax x
+  apply (mem_group start step rows k x).mpr
+  refine ⟨hx, ?_⟩
+  rw [← hk]
+  show (x.fp, bucketEnd start step x.ts) = (o.fp, bucketEnd start step o.ts)
+  rw [hfp, hb]
+
+/-- **completeness**: every (fingerprint, bucket) that holds a row of the raw scan yields its last row -/
+theorem bucketLast_complete (start step : Int) (rows : List Row) (r : Row) (hr : r ∈ rows) :
+    ∃ o ∈ bucketLast start step rows, o.fp = r.fp ∧ bucketEnd start step o.ts = bucketEnd start step r.ts ∧ r.ts ≤ o.ts := by
+  have hk : keyOf start step r ∈ keys start step rows := (mem_keys _ _ _ _).mpr ⟨r, hr, rfl⟩
+  have hne : group start step rows (keyOf start step r) ≠ [] := by
+    intro h
+    have : r ∈ group start step rows (keyOf start step r) := (mem_group _ _ _ _ _).mpr ⟨hr, rfl⟩
+    rw [h] at this; cases this
+  obtain ⟨m, hm, hmem, hmax⟩ := argMax_spec _ hne
+  obtain ⟨_, hmk⟩ := (mem_group start step rows _ m).mp hmem
+  have e1 : m.fp = r.fp := congrArg Prod.fst hmk
+  have e2 : bucketEnd start step m.ts = bucketEnd start step r.ts := congrArg Prod.snd hmk
+  refine ⟨m, ?_, e1, e2, hmax r ((mem_group _ _ _ _ _).mpr ⟨hr, rfl⟩)⟩
+  simp only [bucketLast, List.mem_filterMap]
+  exact ⟨keyOf start step r, hk, hm⟩
+
+/-- the rows come ordered by fingerprint and strictly ascending in their own time: buckets are disjoint intervals -/
+theorem bucketLast_pairwise (start step : Int) (hs : 0 < step) (rows : List Row) (hin : ∀ r ∈ rows, start ≤ r.ts) :
+    (bucketLast start step rows).Pairwise RowLt := by
+  unfold bucketLast
+  refine List.Pairwise.filterMap (R := keyLt) (S := RowLt) _ ?_ (keys_pairwise start step rows)
+  intro a a' hlt b hb b' hb'
+  obtain ⟨hbm, _⟩ := argMax_some hb
+  obtain ⟨hb'm, _⟩ := argMax_some hb'
+  obtain ⟨hbr, hbk⟩ := (mem_group start step rows a b).mp hbm
+  obtain ⟨hb'r, hb'k⟩ := (mem_group start step rows a' b').mp hb'm
+  have e1 : b.fp = a.1 := congrArg Prod.fst hbk
+  have e2 : bucketEnd start step b.ts = a.2 := congrArg Prod.snd hbk
+  have e1' : b'.fp = a'.1 := congrArg Prod.fst hb'k
+  have e2' : bucketEnd start step b'.ts = a'.2 := congrArg Prod.snd hb'k
+  unfold keyLt at hlt
+  unfold RowLt
+  rcases hlt with h | ⟨h1, h2⟩
+  · left; omega
+  · right
+    refine ⟨by omega, ?_⟩
+    rcases Int.lt_or_le b.ts b'.ts with hc | hc
+    · exact hc
+    · have := bucketEnd_mono start step b'.ts b.ts hs (hin b' hb'r) hc
+      omega
+
+
 /-! ## lookback selection over the bucketed samples of one series -/
 
 /-- the samples the row loop puts into the series of fingerprint `f` (see `series_assembly`) -/
@@ -363,6 +424,63 @@ theorem latest_raw_bucket (hone : OneValuePerTs f rows) (j m : Int) (r : Sample)
 
 end Lookback
 
+section LookbackLast
+variable (start step : Int) (hs : 0 < step) (rows : List Row) (hin : ∀ r ∈ rows, start ≤ r.ts) (f : Nat)
+include hs hin
+
+/-- **the lookback selection is unchanged**: with the evaluation time on the bucket grid (`t = start + m·step`) the
+    engine picks, for ANY lower window edge `lo`, the same sample from the series that keeps only the last sample of
+    every bucket as from the raw series -/
+theorem latest_bucketLast_iff (hone : OneValuePerTs f rows) (lo m : Int) (s : Sample) :
+    IsLatest (samplesOf f (bucketLast start step rows)) lo (start + m * step) s ↔
+      IsLatest (samplesOf f rows) lo (start + m * step) s := by
+  -- the kept rows are raw rows
+  have hsub : ∀ x, x ∈ samplesOf f (bucketLast start step rows) → x ∈ samplesOf f rows := by
+    intro x hx
+    obtain ⟨o, ho, h1, h2, h3⟩ := (mem_samplesOf _ _ _).mp hx
+    exact (mem_samplesOf _ _ _).mpr ⟨o, (bucketLast_sound start step rows o ho).1, h1, h2, h3⟩
+  -- a raw sample that is the latest of the window is kept
+  have hkept : ∀ r, IsLatest (samplesOf f rows) lo (start + m * step) r → r ∈ samplesOf f (bucketLast start step rows) := by
+    intro r ⟨hmem, hlo, hhi, hmax⟩
+    obtain ⟨rr, hrr, hrrf, hrrt, hrrv⟩ := (mem_samplesOf _ _ _).mp hmem
+    obtain ⟨o, ho, hof, hob, hge⟩ := bucketLast_complete start step rows rr hrr
+    have hor := (bucketLast_sound start step rows o ho).1
+    -- o lies in the bucket of rr, which ends at or before the evaluation time
+    have hoh : o.ts ≤ start + m * step := by
+      have b2 : bucketEnd start step rr.ts ≤ start + m * step :=
+        (bucketEnd_le_grid start step rr.ts m hs (hin rr hrr)).mpr (by omega)
+      exact (bucketEnd_le_grid start step o.ts m hs (hin o hor)).mp (by omega)
+    have hle : o.ts ≤ r.ts := by
+      have := hmax (sampleOf o) ((mem_samplesOf _ _ _).mpr ⟨o, hor, by omega, rfl, rfl⟩)
+        (by simp only [sampleOf]; omega) (by simpa [sampleOf] using hoh)
+      simpa [sampleOf] using this
+    have hts : o.ts = rr.ts := by omega
+    have hval : o.val = rr.val := hone o hor rr hrr (by omega) hrrf hts
+    exact (mem_samplesOf _ _ _).mpr ⟨o, ho, by omega, by omega, by omega⟩
+  constructor
+  · rintro ⟨hmem, hlo, hhi, hmax⟩
+    refine ⟨hsub s hmem, hlo, hhi, ?_⟩
+    intro x hx hxlo hxhi
+    -- the latest raw sample of the window among those ≥ x is kept, hence ≤ s
+    obtain ⟨rx, hrx, hrxf, hrxt, _⟩ := (mem_samplesOf _ _ _).mp hx
+    obtain ⟨o, ho, hof, hob, hge⟩ := bucketLast_complete start step rows rx hrx
+    have hor := (bucketLast_sound start step rows o ho).1
+    have hoh : o.ts ≤ start + m * step := by
+      have b2 : bucketEnd start step rx.ts ≤ start + m * step :=
+        (bucketEnd_le_grid start step rx.ts m hs (hin rx hrx)).mpr (by omega)
+      exact (bucketEnd_le_grid start step o.ts m hs (hin o hor)).mp (by omega)
+    have := hmax (sampleOf o) ((mem_samplesOf _ _ _).mpr ⟨o, ho, by omega, rfl, rfl⟩)
+      (by simp only [sampleOf]; omega) (by simpa [sampleOf] using hoh)
+    simp only [sampleOf] at this
+    omega
+  · intro h
+    obtain ⟨hmem, hlo, hhi, hmax⟩ := h
+    refine ⟨hkept s ⟨hmem, hlo, hhi, hmax⟩, hlo, hhi, ?_⟩
+    intro x hx hxlo hxhi
+    exact hmax x (hsub x hx) hxlo hxhi
+
+end LookbackLast
+
 /-! ## the range filter -/
 
 /-- `(ts − start) % step ≤ range` ⇔ `ts` lies in one of the windows `[start + i·step, start + i·step + range]` -/
@@ -411,18 +529,23 @@ theorem samplesOf_strict (f : Nat) (rows : List Row) (h : rows.Pairwise RowLt) :
   simp only [sampleOf]
   omega
 
-/-- the rows `run` returns are ordered by (fingerprint, time) when the raw scan's are -/
-theorem run_sorted (h : Hints) (rows : List Row) (hs : SortedRows rows) : SortedRows (run h rows) := by
+/-- the rows `run` returns are ordered by (fingerprint, time) when the raw scan's are (rows inside `[Start, …]`, as the
+    scan delivers them) -/
+theorem run_sorted (h : Hints) (rows : List Row) (hs : SortedRows rows) (hin : ∀ r ∈ rows, h.start ≤ r.ts)
+    (hstep : 0 ≤ h.step) : SortedRows (run h rows) := by
   unfold run
   by_cases h0 : h.step = 0
   · rw [if_pos h0]; exact hs
   · rw [if_neg h0]
     dsimp only
-    have h1 : SortedRows (if isInstant h.func then bucket h.start h.step rows else rows) := by
+    have h1 : SortedRows (if bucketed h then bucketNow h rows else rows) := by
       split
-      · exact List.Pairwise.imp RowLt.le (bucket_pairwise _ _ _)
+      · unfold bucketNow
+        split
+        · exact List.Pairwise.imp RowLt.le (bucketLast_pairwise _ _ (by omega) rows hin)
+        · exact List.Pairwise.imp RowLt.le (bucket_pairwise _ _ _)
       · exact hs
-    by_cases hf : (isRangeFn h.func && decide (h.step > h.range)) = true
+    by_cases hf : filtered h = true
     · rw [if_pos hf]; exact List.Pairwise.filter _ h1
     · rw [if_neg hf]; exact h1
 
